@@ -115,11 +115,25 @@ Definition op_pairadd : op2 := fun a b =>
   | _, _ => terr
   end.
 
+(* operators that mutate the INNER container of a nested accumulator ([[..], ..] or ([..], ..)) in place *)
+Definition inner_list (a : val) : option (list val) :=
+  match a with VList (VList l :: _) | VTup (VList l :: _) => Some l | _ => None end.
+Definition set_inner (a : val) (l : list val) : val :=
+  match a with
+  | VList (_ :: r) => VList (VList l :: r)
+  | VTup (_ :: r) => VTup (VList l :: r)
+  | _ => a
+  end.
+Definition op_inner_append : op2 := fun a x =>                            (* a[0].append(x); return a *)
+  match inner_list a with Some l => Ok (set_inner a (l ++ [x])) | None => terr end.
+Definition op_inner_extend : op2 := fun a b =>                            (* a[0].extend(b[0]); return a *)
+  match inner_list a, inner_list b with Some l, Some m => Ok (set_inner a (l ++ m)) | _, _ => terr end.
+
 Definition op_of_code (c : Z) : option op2 :=
   match c with
   | 0 => Some op_add | 1 => Some op_max | 2 => Some op_mul | 3 => Some op_sub | 4 => Some op_first
   | 5 => Some op_last | 6 => Some op_extend | 7 => Some op_append | 8 => Some op_count
-  | 9 => Some op_sumcount | 10 => Some op_pairadd
+  | 9 => Some op_sumcount | 10 => Some op_pairadd | 11 => Some op_inner_append | 12 => Some op_inner_extend
   | _ => None
   end.
 
